@@ -1209,6 +1209,69 @@ fn c14_viol(kind: BufKind, path: &[Sym], cont: &[Sym], adapt_lhs: bool, d: Strin
     }
 }
 
+/// C14, a transmission that is cut off by the next start sequence: after start + `a` (no 0x1b
+/// at the end of `a`, so the next start sequence is aligned) the decoder reports the cut-off
+/// transmission once and must then decode what follows exactly as a new decoder does -
+/// nothing of the aborted transmission (withheld zeros, buffer contents, counters) may be left.
+pub fn c14_restart_one(kind: BufKind, a: &[u8], tail: &[u8]) -> Option<Viol> {
+    let mut stream = START.to_vec();
+    stream.extend_from_slice(a);
+    let off = stream.len();
+    stream.extend_from_slice(tail);
+    let whole = crate::mon::mon_run(kind, &stream, &[]);
+    let fresh = crate::mon::mon_run(kind, tail, &[]);
+    let first_ok = matches!(whole.events.first(), Some(Ev::Dec(_))) && whole.pos.first() == Some(&(off + 8));
+    let rest_ok = first_ok && whole.events[1..] == fresh.events[..] && whole.pos[1..].iter().map(|p| p - off).collect::<Vec<_>>() == fresh.pos;
+    if rest_ok {
+        return None;
+    }
+    Some(Viol {
+        class: "C14 behaviour after a transmission cut off by the next start sequence differs from a newly constructed decoder".into(),
+        key: format!("{}:abort={}", kind.name(), hex(a)),
+        what: format!("after start+{} the stream {} gives {} at {:?}; a new decoder gives {} at {:?}", hex(a), hex(tail), evs_short(&whole.events), whole.pos, evs_short(&fresh.events), fresh.pos),
+        case: J::obj().set("engine", "e1").set("mode", "c14restart").set("buf", kind.name()).set("abort", hex(a)).set("bytes", hex(tail)),
+        size: a.len() * 100 + tail.len(),
+    })
+}
+fn c14_restarts(acc: &mut Acc, tier: Tier) {
+    // every a over {00, 55} up to length 6 (7 thorough), also behind a leading 1b
+    let maxl = tier.pick(6, 7);
+    let mut aborts: Vec<Vec<u8>> = vec![vec![]];
+    let mut i = 0;
+    while i < aborts.len() {
+        if aborts[i].len() < maxl {
+            for b in [0x00u8, 0x55] {
+                let mut n = aborts[i].clone();
+                n.push(b);
+                aborts.push(n);
+            }
+        }
+        i += 1;
+    }
+    let lead: Vec<Vec<u8>> = aborts.iter().filter(|a| !a.is_empty() && a.len() < maxl).map(|a| { let mut n = vec![0x1b]; n.extend_from_slice(a); n }).collect();
+    aborts.extend(lead);
+    let mut tails: Vec<Vec<u8>> = vec![];
+    for p in [&[][..], &[0x55], &[0x00], &[0x00, 0x00, 0x55], &[0x55, 0x00, 0x00, 0x00, 0x00, 0x00], &[0x1b, 0x1b, 0x1b, 0x1b, 0x01]] {
+        for q in [&[][..], &[0x55], &[0x00, 0x00]] {
+            let mut t = canon(p);
+            if !q.is_empty() { t.extend_from_slice(&canon(q)); }
+            tails.push(t);
+        }
+    }
+    let mut n = 0u64;
+    for kind in [BufKind::Vec, BufKind::Arr(8)] {
+        for a in &aborts {
+            for t in &tails {
+                n += 1;
+                if let Some(v) = c14_restart_one(kind, a, t) {
+                    acc.tally.add(v);
+                }
+            }
+        }
+    }
+    acc.counts.addn("streams behind a transmission cut off by the next start sequence compared with a new decoder", n);
+}
+
 pub fn run_c14(tier: Tier) -> ! {
     let ctx = Ctx::new("C14", tier);
     let mut gf = vec![];
@@ -1270,6 +1333,7 @@ pub fn run_c14(tier: Tier) -> ! {
         }
     }
     many_frames(&mut acc, &["C14"], tier.pick(300, 1000));
+    c14_restarts(&mut acc, tier);
     acc.transitions += total_pairs * 2;
     acc.counts.addn("lock-step continuation steps (boundary state vs new decoder)", total_pairs);
     acc.counts.addn("continuations closed by full state equality (all futures identical)", closed);
